@@ -195,6 +195,11 @@ func specNewError(env *Env, recv *Val, args []Val, st *State, call *ast.CallExpr
 	c := env.c
 	r := c.fresh("err", "Int")
 	st.assume(fmt.Sprintf("(> %s 0)", r))
+	// a newly made error value is not identical to any sentinel error variable
+	for _, sn := range sortedKeys(c.sentinels) {
+		st.assume(fmt.Sprintf("(distinct %s %s)", r, sn))
+	}
+	c.freshErrs = append(c.freshErrs, r)
 	// a fresh error differs from every sentinel unless it wraps one (%w): wrapped sentinel stays Is-reachable
 	c.decls.declFun("err_is", []string{"Int", "Int"}, "Bool")
 	c.decls.axiom("err_is", "(forall ((e Int) (t Int)) (! (and (=> (= e t) (err_is e t)) (=> (= e 0) (= (err_is e t) (= t 0)))) :pattern ((err_is e t))))")
